@@ -5,7 +5,7 @@
 From Coq Require Import List ZArith Lia Bool Arith.
 Require Import HP1 Cao1 Cao5 Cao6 Rooms Spec Valid Node NoPanic WfCheck RoomThms RoomSites WfPres Solve NoOverflow.
 Require EngP2.
-Require Json SimpleRead SimpleValid.
+Require Json SimpleRead SimpleValid CdeValid.
 Import ListNotations.
 Open Scope nat_scope.
 
@@ -144,11 +144,19 @@ Proof.
            (SimpleValid.accepted_size_ok data ps cs Hr Hc) R).
 Qed.
 
-Check C10_document_total. Check C10_node_total. Check C10_total. Check C10_size_checker. Check C10_document_valid. Check C10_document_node. Check C10_float_sane_checker. Check C10_node. Check C10_node_class. Check C10_root_wf. Check C10_children_wf. Check C10_search. Check C10_no_failure. Check C10_never_stuck. Check C10_node_noroom.
+(* the same for CdE exports: the problem the reader builds is consistent by construction (C12_consistent), hence valid once the three
+   unchecked clauses hold *)
+Theorem C10_export_valid : forall data track ign_c ign_a ff of ps cs amb,
+  Json.read_fields data track ign_c ign_a ff of = Json.ROk (ps, cs, amb) -> CdeValid.cde_unchecked_okb ps = true ->
+  Valid (map CdeValid.cde_course cs) (map CdeValid.cde_part ps).
+Proof. exact CdeValid.export_valid. Qed.
+
+Check C10_export_valid. Check C10_document_total. Check C10_node_total. Check C10_total. Check C10_size_checker. Check C10_document_valid. Check C10_document_node. Check C10_float_sane_checker. Check C10_node. Check C10_node_class. Check C10_root_wf. Check C10_children_wf. Check C10_search. Check C10_no_failure. Check C10_never_stuck. Check C10_node_noroom.
 Print Assumptions C10_node.
 Print Assumptions C10_node_total.
 Print Assumptions C10_total.
 Print Assumptions C10_document_total.
+Print Assumptions C10_export_valid.
 Print Assumptions C10_document_valid.
 Print Assumptions C10_document_node.
 Print Assumptions C10_node_class.
